@@ -79,6 +79,95 @@ def loadCmlWith (table : MassTable) (atoms : List CmlAtom) (bonds : List CmlBond
 /-- `Atoms.load_cml` with the mass table of /repo -/
 def loadCml (atoms : List CmlAtom) (bonds : List CmlBond) : Except Err Atoms := loadCmlWith massTable atoms bonds
 
+/-! ### the element layer: which elements of the XML document are atom / bond entries
+
+  `root.findall('.//{*}atom')` / `root.findall('.//{*}bond')` (since the namespace repair): every DESCENDANT of the root
+  (never the root itself) whose LOCAL name is `atom` / `bond`, in document order, whatever namespace the element name is
+  in (none, a default `xmlns="…"` inherited from an ancestor, or a prefix such as `cml:`).  ElementTree resolves
+  prefixes to namespace URIs, so an element name is (namespace URI or none, local name).  Attribute names stay
+  unqualified.  A document is the list of its non-root elements in document order (the tree shape is irrelevant to a
+  descendant search); an element carries the attributes the loader reads, each possibly absent. -/
+
+structure XmlName where
+  ns : Option String        -- namespace URI; `none` = the name is in no namespace
+  loc : String              -- local name
+deriving DecidableEq, Repr, Inhabited
+
+/-- the attributes `load_cml` reads (`a.attrib[...]`); coordinates and order already parsed by `float` -/
+structure CmlElem where
+  name : XmlName
+  id : Option String := none
+  elementType : Option String := none
+  x3 : Option Rat := none
+  y3 : Option Rat := none
+  z3 : Option Rat := none
+  atomRefs2 : Option (List String) := none       -- `a['atomRefs2'].split()`
+  order : Option Rat := none
+deriving DecidableEq, Repr, Inhabited
+
+/-- `root.findall('.//{*}<loc>')` over the non-root elements in document order -/
+def selectLocal (loc : String) (elems : List CmlElem) : List CmlElem :=
+  elems.filter (fun e => e.name.loc = loc)
+
+/-- the lookup BEFORE the repair, `root.findall('.//<loc>')`: only names in NO namespace match
+    (kept for the machine-checked counterexample) -/
+def selectUnqualified (loc : String) (elems : List CmlElem) : List CmlElem :=
+  elems.filter (fun e => e.name = ⟨none, loc⟩)
+
+/-- `(a['id'], a['elementType'], float(a['x3']), float(a['y3']), float(a['z3']))`: KeyError for a missing attribute -/
+def atomOf (e : CmlElem) : Except Err CmlAtom :=
+  match e.id, e.elementType, e.x3, e.y3, e.z3 with
+  | some i, some el, some x, some y, some z => .ok { id := i, elem := el, pos := ⟨x, y, z⟩ }
+  | _, _, _, _, _ => .error (.reject "key")
+
+/-- `(a['atomRefs2'].split(), float(a['order']))`: KeyError for a missing attribute -/
+def bondRawOf (e : CmlElem) : Except Err (List String × Rat) :=
+  match e.atomRefs2, e.order with
+  | some refs, some o => .ok (refs, o)
+  | _, _ => .error (.reject "key")
+
+/-- `mapM` in `Except`, written out (first error wins, as in a list comprehension) -/
+def mapExcept {α β} (f : α → Except Err β) : List α → Except Err (List β)
+  | [] => .ok []
+  | x :: xs =>
+    match f x with
+    | .error e => .error e
+    | .ok y =>
+      match mapExcept f xs with
+      | .error e => .error e
+      | .ok ys => .ok (y :: ys)
+
+/-- `[(id_to_idx[b1], id_to_idx[b2]) for (b1,b2) in bonds_by_ids]`, bond by bond in order: unpacking a reference list
+    that has not exactly two entries is a ValueError, an unknown reference a KeyError -/
+def bondOf (ids : List String) (raw : List String × Rat) : Except Err CmlBond :=
+  match raw.1 with
+  | [r1, r2] =>
+    if (lastIndexOf? ids r1).isNone || (lastIndexOf? ids r2).isNone then .error (.reject "key")
+    else .ok { ref1 := r1, ref2 := r2, order := raw.2 }
+  | _ => .error (.reject "value")
+
+/-- `load_cml` from the element layer with a given element selection -/
+def loadCmlElemsWith (select : String → List CmlElem → List CmlElem) (table : MassTable) (elems : List CmlElem) :
+    Except Err Atoms :=
+  match mapExcept atomOf (select "atom" elems) with
+  | .error e => .error e
+  | .ok atoms =>
+    if atoms.isEmpty then .error (.reject "value")
+    else
+      match mapExcept bondRawOf (select "bond" elems) with
+      | .error e => .error e
+      | .ok raws =>
+        match mapExcept (bondOf (atoms.map (·.id))) raws with
+        | .error e => .error e
+        | .ok bonds => loadCmlWith table atoms bonds
+
+/-- `Atoms.load_cml` on a document given by its non-root elements (the code as it is now: any namespace) -/
+def loadCmlDoc (elems : List CmlElem) : Except Err Atoms := loadCmlElemsWith selectLocal massTable elems
+
+/-- the same document with every element name moved to other namespaces (local names kept) -/
+def renamespace (f : CmlElem → Option String) (elems : List CmlElem) : List CmlElem :=
+  elems.map (fun e => { e with name := ⟨f e, e.name.loc⟩ })
+
 /-- the same document with every id and every reference renamed -/
 def renameAtoms (f : String → String) (atoms : List CmlAtom) : List CmlAtom :=
   atoms.map (fun a => { a with id := f a.id })
